@@ -292,6 +292,40 @@ func vfsList(dir string) []string {
 	return out
 }
 
+// vfsReadDir: the names (kinds: vfsReadDirKinds) of the direct entries of a directory, in the model's order; nil if
+// the directory does not exist or is a file
+func vfsReadDir(dir string) []string {
+	d := verifPathElems(dir)
+	i := vfsFind(d)
+	if i < 0 || vfs[i].kind != 1 {
+		return nil
+	}
+	out := []string{}
+	for _, e := range vfs {
+		if len(e.elems) == len(d)+1 && hasPrefixElems(e.elems, d) {
+			out = append(out, e.elems[len(d)])
+		}
+	}
+	return out
+}
+
+func vfsReadDirKinds(dir string) []int {
+	d := verifPathElems(dir)
+	var out []int
+	for _, e := range vfs {
+		if len(e.elems) == len(d)+1 && hasPrefixElems(e.elems, d) {
+			k := e.kind
+			for _, l := range vfsLinks {
+				if sameElems(l, e.elems) {
+					k = 3 // a symbolic link: not a directory for a DirEntry
+				}
+			}
+			out = append(out, k)
+		}
+	}
+	return out
+}
+
 // vfsListKinds: the kinds (1 directory, 2 file) of the entries vfsList returns, in the same order.
 func vfsListKinds(dir string) []int {
 	d := verifPathElems(dir)
